@@ -99,10 +99,13 @@ class Ctx:
             d = None
             if model and io is not None:
                 d = core.first_diff(io, mo, getattr(c, "zero_loose", False))
+            if isinstance(verdict, list) and not verdict:
+                verdict = None
             if verdict is not None:
                 nfail += 1
-                self.fail_input(meta, verdict, io, mo, theorem)
-            elif d is not None:
+                for v in (verdict if isinstance(verdict, list) else [verdict]):
+                    self.fail_input(meta, v, io, mo, theorem)
+            if d is not None and (verdict is None or isinstance(verdict, list)):
                 ndis += 1
                 det = "first differing slot %d: impl=%s model=%s" % (
                     d, io[d] if io and d < len(io) else None, mo[d] if mo and d < len(mo) else None)
